@@ -421,3 +421,33 @@ def boundary_sweep() -> list[dict]:
             out.append({'session': big_session, 'attrs': attrs, 'announces': [[afi, safi, 4, 2, 0, 1]], 'withdraws': [], 'include_withdraw': True})
             out.append({'session': big_session, 'attrs': attrs, 'announces': [[afi, safi, 1, 0, 0, 1]], 'withdraws': [[afi, safi, 1, 0]], 'include_withdraw': True})
     return out
+
+
+def hand_case(room: int | None, announces: list, withdraws: list, include_withdraw: bool = True, big: bool = False) -> dict:
+    """plain iBGP session, every family negotiated, attributes = defaults + one generic filler leaving `room` octets"""
+    session = {'ext_ours': big, 'ext_peer': big, 'addpath': False, 'asn4': True, 'ibgp': True, 'families': [list(f) for f in FAMILIES]}
+    attrs = {'source': 'v4', 'origin': None, 'med': None, 'atomic': False, 'n_as': 0, 'as4': False, 'n_comm': 0, 'n_large': 0, 'generic': 0, 'nh4': 0, 'mode': 'hand'}
+    if room is not None:
+        attrs = steer(attrs, session, msg_size_of(session) - UPDATE_FIXED - room, [])
+    return {'session': session, 'attrs': attrs, 'announces': announces, 'withdraws': withdraws, 'include_withdraw': include_withdraw}
+
+
+def minimal_findings() -> list[dict]:
+    """hand-made smallest inputs, one per root cause met at the pinned commit (they run in every tier)"""
+    return [
+        hand_case(2, [[1, 1, 2, 2, 0, 1]], []),  # 16.0.0.0/8 fits, 16.0.0.0/16 does not: sent in a 4097-octet message
+        hand_case(29, [[2, 1, 2, 2, 0, 1]], []),  # 2001:db8::/32 fits, 2001:db8::/48 does not: 4098-octet MP_REACH message
+        hand_case(20, [[1, 4, 1, 5, 0, 1]], [[2, 1, 4, 2]]),  # the last of four growing withdrawals: 4099-octet MP_UNREACH message
+        hand_case(2, [[1, 1, 2, 2, 0, 1]], [], big=True),  # the same at 65535: struct.error out of Message._message
+        hand_case(None, [], [[2, 1, 1, 0]], include_withdraw=False),  # an IPv6 withdrawal with include_withdraw off: 00000000 = End-of-RIB
+        hand_case(3, [[1, 1, 1, 0, 0, 1]], [[1, 1, 1, 5]]),  # /24 cannot fit: `return`, the /8 withdrawal is never sent
+        hand_case(30, [[2, 1, 1, 0, 0, 1], [1, 4, 1, 0, 0, 1]], []),  # the IPv6 route cannot fit: RuntimeError, the labeled route is lost
+        hand_case(22, [[1, 1, 1, 0, 0, 1], [1, 4, 1, 0, 0, 1]], []),  # the IPv4 NLRI already sent still counts against the MP budget
+        hand_case(19, [[1, 4, 1, 0, 0, 1]], [[1, 4, 1, 0]]),  # MP_REACH fills the message, MP_UNREACH of the same family raises
+        hand_case(3, [], [[1, 1, 1, 0]]),  # an IPv4 withdrawal needs no attribute but is dropped for lack of room after them
+        hand_case(12, [], [[1, 4, 1, 0]]),  # a labeled withdrawal is sent with all attributes: RuntimeError
+    ]
+
+
+def fixed_cases() -> list[dict]:
+    return minimal_findings() + boundary_sweep()
